@@ -18,7 +18,7 @@ The debounce timers of one notification kind are modelled as
 `Timer.Reset` on a fired `AfterFunc` timer re-arms it (trusted runtime semantics, DESIGN §3).
 
 The model describes the REPAIRED tree: the deferred clean-up of `subscriptionsListen` removes only
-table entries that carry the id of the listen that ends (fixes/F16-listen-cleanup-by-id.patch).
+table entries that carry the id of the listen that ends (fixes/F19-listen-cleanup-by-id.patch).
 
 Environment assumptions, enforced as guards of the labels (a label whose guard fails is a no-op):
 the SDK client opens `subscriptions/listen` only on a 2026-07-28 session, at most one live listen
